@@ -32,7 +32,9 @@ def compositions(items, max_parts):
 def close(impl, want, tol):
     if want is None:
         return isinstance(impl, float) and math.isnan(impl)
-    if impl is None or (isinstance(impl, float) and math.isnan(impl)):
+    if impl is None or (isinstance(impl, float) and (math.isnan(impl) or math.isinf(impl))):
+        return False          # an infinite statistic of finite data is simply wrong (not a harness problem)
+    if isinstance(impl, bool) or not isinstance(impl, (int, float, Fraction)):
         return False
     return abs(Fraction(impl) - want) <= tol
 
